@@ -195,6 +195,78 @@ def recover(tree: ast.Module, modname: str, table: Dict[str, List[List[str]]]) -
     return log
 
 
+# -- orientation of comparisons and of if/else ------------------------------------------------------------------
+SHAPES = os.path.join(os.path.dirname(os.path.abspath(__file__)), "known_shapes.json")
+_FLIP = {ast.Lt: ast.Gt, ast.Gt: ast.Lt, ast.LtE: ast.GtE, ast.GtE: ast.LtE, ast.Eq: ast.Eq, ast.NotEq: ast.NotEq, ast.Is: ast.Is,
+         ast.IsNot: ast.IsNot}
+
+
+def _flippable(c: ast.AST) -> bool:
+    if not (isinstance(c, ast.Compare) and len(c.ops) == 1 and type(c.ops[0]) in _FLIP):
+        return False
+    return not any(isinstance(n, (ast.Await, ast.Yield, ast.YieldFrom, ast.NamedExpr)) for n in _preorder(c))
+
+
+def _flipped_text(c: ast.Compare) -> str:
+    return ast.unparse(ast.Compare(c.comparators[0], [_FLIP[type(c.ops[0])]()], [c.left]))
+
+
+def _negated_text(t: ast.AST) -> str:
+    if isinstance(t, ast.UnaryOp) and isinstance(t.op, ast.Not):
+        return ast.unparse(t.operand)
+    return ast.unparse(ast.UnaryOp(ast.Not(), t))
+
+
+def _plain_else(n: ast.AST) -> bool:
+    return isinstance(n, ast.If) and bool(n.orelse) and not (len(n.orelse) == 1 and isinstance(n.orelse[0], ast.If))
+
+
+def build_shapes(trees: List[Tuple[str, ast.Module]]) -> Dict[str, Dict[str, List[str]]]:
+    table: Dict[str, Dict[str, List[str]]] = {}
+    for modname, tree in trees:
+        for q, fn in _functions(tree, modname):
+            if q in table:
+                continue
+            cmps = sorted({ast.unparse(n) for n in _preorder(fn) if _flippable(n)})
+            ifs = sorted({ast.unparse(n.test) for n in _preorder(fn) if _plain_else(n)})
+            if cmps or ifs:
+                table[q] = {"compare": cmps, "if_else": ifs}
+    return table
+
+
+def load_shapes() -> Optional[Dict[str, Dict[str, List[str]]]]:
+    if not os.path.exists(SHAPES):
+        return None
+    with open(SHAPES) as f:
+        return json.load(f)
+
+
+def reorient(tree: ast.Module, modname: str, table: Dict[str, Dict[str, List[str]]]) -> List[str]:
+    """In pinned functions, turn `b > a` back into the pinned `a < b` and `if not c: B else: A` back into the pinned `if c: A else: B`
+    (single-operator comparisons without await/yield/walrus in the operands; plain if/else, no elif).  Only spellings whose mirrored
+    text is a pinned spelling of the same function and whose own text is not are touched."""
+    log: List[str] = []
+    done: Set[str] = set()
+    for q, fn in _functions(tree, modname):
+        if q not in table or q in done:
+            continue
+        done.add(q)
+        cmps, ifs = set(table[q].get("compare", [])), set(table[q].get("if_else", []))
+        for n in list(_preorder(fn)):
+            if _flippable(n) and cmps and ast.unparse(n) not in cmps and _flipped_text(n) in cmps:
+                was = ast.unparse(n)
+                n.left, n.comparators, n.ops = n.comparators[0], [n.left], [_FLIP[type(n.ops[0])]()]
+                log.append(f"{q}: comparison {was} -> {ast.unparse(n)}")
+        for n in list(_preorder(fn)):
+            if _plain_else(n) and ifs and ast.unparse(n.test) not in ifs and _negated_text(n.test) in ifs:
+                was = ast.unparse(n.test)
+                t = n.test
+                n.test = t.operand if isinstance(t, ast.UnaryOp) and isinstance(t.op, ast.Not) else ast.copy_location(ast.UnaryOp(ast.Not(), t), t)
+                n.body, n.orelse = n.orelse, n.body
+                log.append(f"{q}: if {was} .. else -> if {ast.unparse(n.test)} .. else (branches swapped)")
+    return log
+
+
 if __name__ == "__main__":
     import sys
     root = sys.argv[1] if len(sys.argv) > 1 else "/repo"
@@ -213,3 +285,7 @@ if __name__ == "__main__":
     with open(TABLE, "w") as f:
         json.dump(t, f, indent=0, sort_keys=True)
     print(len(t), "functions,", sum(len(v) for v in t.values()), "locals")
+    sh = build_shapes(trees)
+    with open(SHAPES, "w") as f:
+        json.dump(sh, f, indent=0, sort_keys=True)
+    print(len(sh), "functions with comparisons / if-else")
